@@ -1,6 +1,6 @@
 (* Properties/C14.v — pinned statements only. *)
 From Boreal Require Import Base.Prelude Base.ListX Base.Bytes Model.Literals Model.AcScan Model.Limits
-  Spec.TextSpec Model.TextCase Proofs.LimitsProofs Proofs.TextMain Proofs.LimitsRecord.
+  Spec.TextSpec Model.TextCase Proofs.LimitsProofs Proofs.TextMain Proofs.LimitsRecord Proofs.LimitsPrefix.
 
 (* limit: for every rule set, every region layout, every matcher kind (atom path and raw path), no
    string collects more than string_max_nb_matches matches *)
@@ -79,14 +79,38 @@ Theorem C14_prefix_raw :
             (fold_left (fun vm rv => scan_single_variable (prm_unl prm big) (fst rv) (snd rv) vm) rgs vm).
 Proof. exact raw_regions_prefix. Qed.
 
-(* full statement of the prefix relation for the atom path (Literals): kept as a definition; proved
-   instance: C01_text_matches (offsets = spec_offsets whenever they fit the limit) *)
-Definition C14_prefix_ac_statement : Prop :=
+(* prefix, atom path: for every matcher whose process_ac_match does not read start_position
+   (MatcherKind::Literals), over any regions with pairwise distinct starts, the limited list is the
+   first `lim` matches of the unlimited one — as records, not only as offsets *)
+Theorem C14_prefix_ac_general :
+  forall prm big var regions, sp_indep var -> p_max_nb_matches prm <= big ->
+    nlen (scan_var_fragmented (prm_unl prm big) var regions) < big ->
+    NoDup (map f_start regions) ->
+    scan_var_fragmented prm var regions
+    = ntake (p_max_nb_matches prm) (scan_var_fragmented (prm_unl prm big) var regions).
+Proof. exact prefix_ac_fragmented. Qed.
+
+Theorem C14_prefix_ac :
   forall prm big d regions, p_max_nb_matches prm <= big ->
     nlen (scan_var_fragmented (prm_unl prm big) (text_matcher d) regions) < big ->
     NoDup (map f_start regions) ->
     scan_var_fragmented prm (text_matcher d) regions
     = ntake (p_max_nb_matches prm) (scan_var_fragmented (prm_unl prm big) (text_matcher d) regions).
+Proof. exact prefix_ac_text. Qed.
+
+(* the hypotheses are satisfiable (overlapping matches over two regions, limit 3 inside the second) *)
+Example C14_prefix_example :
+  let d := {| t_text := [97;97]; t_ascii := true; t_wide := false; t_nocase := false; t_fullword := false;
+              t_xor := None; t_b64 := None |} in
+  let regions := [ {| f_start := 0; f_mem := [97;97;97]; f_fail := false; f_described := 3 |};
+                   {| f_start := 50; f_mem := [97;97;97;97]; f_fail := false; f_described := 4 |} ] in
+  (nlen (scan_var_fragmented (prm_unl prm_lim2 100) (text_matcher d) regions) <? 100) = true
+  /\ map (fun x => (sm_base x, sm_off x)) (scan_var_fragmented (prm_unl prm_lim2 100) (text_matcher d) regions)
+     = [(0,0); (0,1); (50,0); (50,1); (50,2)]
+  /\ map (fun x => (sm_base x, sm_off x))
+         (scan_var_fragmented {| p_match_max_length := 512; p_max_nb_matches := 3 |} (text_matcher d) regions)
+     = [(0,0); (0,1); (50,0)].
+Proof. vm_compute. repeat split. Qed.
 
 Example C14_limit_example :
   map (fun vm => nlen vm) (scan_direct prm_lim2 [text_matcher
@@ -103,3 +127,5 @@ Print Assumptions C14_record_partial.
 Print Assumptions C14_record_text.
 Print Assumptions C14_text_spans_ok.
 Print Assumptions C14_prefix_raw.
+Print Assumptions C14_prefix_ac_general.
+Print Assumptions C14_prefix_ac.
